@@ -491,7 +491,7 @@ func (P *Prog) checkPoolNewFresh(r *Result, rule string) {
 			}
 		})
 	}
-	r.floor(rule, 3)
+	r.floor(rule, 1) // (one generic `newPool[T]()` may build every pool: a floor of half the pools fired on that merge)
 }
 
 // sharesMemory: v is (or contains) a reference to memory that exists independently of the current call:
